@@ -64,6 +64,13 @@ def _xy(path, ul):
 
 
 def check(case: dict):
+    if case.get("pre"):
+        # another maze plotted first in the same process (e.g. one of another shape holding the same flags in the same flat order)
+        check(case["pre"])
+    return _check_one(case)
+
+
+def _check_one(case: dict):
     import matplotlib
 
     matplotlib.use("Agg", force=True)
@@ -184,6 +191,28 @@ def _case(draw, hi):
     return case
 
 
+@st.composite
+def _twin_case(draw):
+    from mzverif.props import C13
+
+    tw = draw(C13._twins())
+    ul = draw(st.sampled_from([3, 5, 14]))
+
+    def one(shape):
+        r, c = shape
+        g = {"r": r, "c": c, "cl": tw["cl"]}
+        a = M.adj(g)
+        s0 = tuple(draw(G.cell_in(r, c)))
+        far = sorted(M.bfs(a, s0).items(), key=lambda kv: (-kv[1], kv[0]))[0][0]
+        return {"g": g, "sol": [list(q) for q in M.shortest_path(a, s0, far)], "kind": draw(st.sampled_from(["lattice", "solved", "targeted"])), "ul": ul,
+                "pred_paths": [], "as_array": False}
+
+    main = one(tw["order"][1])
+    main["pre"] = one(tw["order"][0])
+    return main
+
+
 def subs(tier: str):
     q = tier == "quick"
-    return [Sub("plots", check, "hypothesis", strategy=lambda: _case(8), examples=120 if q else 4000)]
+    return [Sub("plots", check, "hypothesis", strategy=lambda: _case(8), examples=120 if q else 4000),
+            Sub("same-flags-other-shape", check, "hypothesis", strategy=_twin_case, examples=10 if q else 300)]
